@@ -220,6 +220,10 @@ CFG = {
         # arithmetic of DeriveConstants (Gen.Go.DeriveConstants_core1, statement by statement) = deriveConstants.js
         "projString_keys_pinned", "projString_special_pinned", "projString_frame_pinned", "DeriveConstants_shape_pinned",
         "go_deriveCore_eq_js_S", "go_deriveCore_eq_js",
+        # every case of projString's switch (numeric/string/flag cases from the REGENERATED tables) = projString.js
+        "go_projString_num_eq_js", "go_projString_str_eq_js", "go_projString_flag_eq_js", "go_projString_units_eq_js",
+        "go_projString_nadgrids_eq_js", "go_projString_axis_eq_js", "go_projString_towgs84_eq_js", "go_projString_pm_eq_js",
+        "go_projString_unknown", "paramSame_new",
     ]],
     "trusted_base": [
         "Lean 4.33.0 kernel; axioms of every theorem printed by #print axioms must be within {propext, Classical.choice, Quot.sound}",
